@@ -4,6 +4,7 @@ package main
 // table, module), reread (C06 second half), rwp (READWithPreamble on arbitrary bytes).
 
 import (
+	"context"
 	"encoding/hex"
 	"fmt"
 	"strings"
@@ -99,7 +100,7 @@ func genForm(r *rng, depth int) string {
 	case 9:
 		return "^" + genForm(r, depth-1) + " " + genForm(r, depth-1)
 	case 10:
-		return "«" + r.pick([]string{"error", "go-error", "atom", "nope", "1", ""}) + " " + join() + "»"
+		return "«" + r.pick([]string{"error", "go-error", "atom", "nope", "1", "", "lfn", "num", "nil"}) + " " + join() + "»"
 	default:
 		return "{" + join() + "}"
 	}
@@ -300,11 +301,17 @@ func (e *readEngine) theEnv() EnvType {
 	if e.env == nil {
 		e.env = env.NewEnv()
 		core.Load(e.env)
+		// names spelled like constructors but bound to something that is not a Go function
+		for _, src := range []string{"(def new-lfn (fn [a] a))", "(def new-num 5)", "(def new-nil nil)"} {
+			if ast, err := lisp.READ(src, nil, e.env); err == nil {
+				lisp.EVAL(context.Background(), ast, e.env)
+			}
+		}
 	}
 	return e.env
 }
 
-var phNames = []string{"$x", "$NUMBER", "$a-b_1", "$y"}
+var phNames = []string{"$x", "$NUMBER", "$a-b_1", "$y", "$MODULE", "$0"}
 
 func genPhs(r *rng) map[string]MalType {
 	m := map[string]MalType{}
